@@ -362,6 +362,74 @@ def u_register(c):
     c.prove("ensures/to_close", itor.fields["to_close"] == ([acc] if (close and acc_close) else []))
 
 
+r_el = z3.Function("r_element", z3.IntSort(), z3.IntSort())           # identity of the i-th key of the capture map
+r_m = z3.Function("r_nnames", z3.IntSort(), z3.IntSort())              # number of names the i-th key maps to
+r_nm = z3.Function("r_name", z3.IntSort(), z3.IntSort(), Val)          # the j-th of them
+ev_app = z3.Function("ev_accumulators_append", Val, Val, Val, Val)     # accumulators[v].append((element, acc))
+R_OUT = z3.Function("R_OUT", z3.IntSort(), Log)                        # ghost history at the start of outer iteration i
+R_IN = z3.Function("R_IN", z3.IntSort(), z3.IntSort(), Log)            # ... at the start of inner iteration j of outer iteration i
+
+
+@unit("register.any-size", ["C03", "C07", "C02", "C04", "C06", "C09", "C11", "C12", "C13", "C16"], [I + ":Interactor.register"],
+      assumed=["the table of accumulators is a mapping whose missing keys are created on demand (collections.defaultdict(list)); "
+               "the per-name lists are known through the sequence of their appends"])
+def u_register_unbounded(c):
+    """Unbounded form of `register`: for a capture map with ANY number of elements, each mapping to ANY number of names (repetitions
+    allowed), the appends made to the table of accumulators are exactly (v, (element, acc)) for element in map order and v in the order
+    of its names -- nothing else is read or written in the table -- and to_close gains acc iff close_at_exit and acc.close."""
+    it = Interp(c)
+    n = z3.Int("n")
+    c.inputs["n"] = SInt(n)
+    c.assume(n >= 0)
+    acc_close = c.choose(2)
+    acc = SymObj("acc", Val.ref(z3.IntVal(c.new_id())), attrs={"close": SummaryFn("close", lambda *a: None) if acc_close else None})
+    acc_t = it.to_val(acc)
+
+    def el_obj(i):
+        return SymObj("element", Val.ref(r_el(i)))
+
+    def item(i):
+        c.assume(r_m(i) >= 0)
+        return (el_obj(i), SymSeq("varnames", r_m(i), lambda j: SVal(r_nm(i, j)), kind="set"))
+
+    def table_getitem(it_, a, k):
+        key = it_.to_val(a[0])
+
+        def append(it__, b, kk):
+            pair = b[0]
+            if not (isinstance(pair, tuple) and len(pair) == 2):
+                raise PyRaise(it__.mk_exc("AssertionError", "register appends something that is not an (element, accumulator) pair"))
+            it__.ctx.emit(ev_app(key, it__.to_val(pair[0]), it__.to_val(pair[1])))
+
+        return SymObj("accumulators[v]", Val.ref(z3.IntVal(c.new_id())), attrs={"append": SummaryFn("append", append)}, closed=True)
+
+    table = SymObj("accumulators", Val.ref(z3.IntVal(c.new_id())), attrs={"__getitem__": SummaryFn("accumulators.__getitem__", table_getitem)}, closed=True)
+    capmap = SymObj("captures", Val.ref(z3.IntVal(c.new_id())), attrs={"items": SummaryFn("captures.items", lambda it_, a, k: SymSeq("captures.items()", n, item))}, closed=True)
+
+    def outer_axioms(it_, env, i):
+        return [R_OUT(z3.IntVal(0)) == log_nil, R_OUT(i + 1) == R_IN(i, r_m(i)), R_IN(i, z3.IntVal(0)) == R_OUT(i)]
+
+    def inner_ghost(it_, env, j):
+        return R_IN(env.loop_index[0], j)
+
+    def inner_axioms(it_, env, j):
+        i = env.loop_index[0]
+        return [R_IN(i, z3.IntVal(0)) == R_OUT(i),
+                R_IN(i, j + 1) == log_snoc(R_IN(i, j), ev_app(r_nm(i, j), Val.ref(r_el(i)), acc_t))]
+
+    it.loopspecs = {(I + ":Interactor.register", 0): LoopSpec(ghost=lambda it_, env, i: R_OUT(i), axioms=outer_axioms),
+                    (I + ":Interactor.register", 1): LoopSpec(ghost=inner_ghost, axioms=inner_axioms)}
+    to_close = []
+    itor = mk_obj(it, I, "Interactor", fn=None, accumulators=table, to_close=to_close)
+    close = bool(c.choose(2))
+    st, res = run(it, it.getattr(itor, "register"), [acc, capmap, close])
+    c.prove("no-raise", st == "ok")
+    c.cover("return")
+    c.prove("ensures/appends==one-per-(element,name)-in-map-order-and-nothing-else", c.log == R_OUT(n))
+    c.prove("ensures/to_close", itor.fields["to_close"] == ([acc] if (close and acc_close) else []))
+    c.prove("frame/table-object-kept", itor.fields["accumulators"] is table)
+
+
 ev_close = z3.Function("ev_close", Val, Val)
 x_acc = z3.Function("x_acc", z3.IntSort(), z3.IntSort())
 
